@@ -46,20 +46,23 @@ def _trace_sig(t, bad, l):
 
 
 def run(ctx):
-    # 1. model checking (small symbolic signatures, full grid)
     import os
-    mc_cfg = W.cfg_with(ctx, "MC_SignedValue.cfg",
-                        ctx.pick({"ArbLen": 3, "Times": "{1234567}", "EditBytes": "{48, 124, 58, 46}"}, {"ArbLen": 6}))
-    ctx.mc(W.SPEC_DIR, "SignedValue", os.path.relpath(mc_cfg, W.SPEC_DIR), required_actions=["Scenario", "ArbPut"],
-           timeout=ctx.pick(900, 1500))
+    # 1. model checking.  Thorough: a separate run with small symbolic signatures over the full
+    #    grid; quick: the scenario run below is itself a complete TLC run (all invariants of the cfg).
+    if not ctx.quick:
+        mc_cfg = W.cfg_with(ctx, "MC_SignedValue.cfg", {"ArbLen": 6})
+        ctx.mc(W.SPEC_DIR, "SignedValue", os.path.relpath(mc_cfg, W.SPEC_DIR), required_actions=["Scenario", "ArbPut"],
+               timeout=1500)
     # the version-1 format is refuted on the specification itself (F11)
     ctx.mc("websec", "SignedValue", "MC_SignedValue_v1.cfg", timeout=ctx.pick(900, 1500),
            spec_violation_sig=lambda r, states: {"version": 1})
     # 2. spec -> code: every scenario with real signature lengths
-    subs = ctx.pick({}, {"Names": "NamesB", "Values": "ValuesB", "Times": "{1, 1234567}",
-                         "EditBytes": "{48, 49, 124, 58, 97, 61, 45, 46}", "ArbLen": 5})
-    r, states = W.tlc_states(ctx, "SignedValue", W.cfg_with(ctx, "Gen_SignedValue.cfg", subs), count=False,
-                             label="Gen_SignedValue.cfg", timeout=ctx.pick(900, 1500))
+    subs = ctx.pick({"ArbLen": 3, "EditBytes": "{48, 124, 58, 46}"},
+                    {"Names": "NamesB", "Values": "ValuesB", "Times": "{1, 1234567}",
+                     "EditBytes": "{48, 49, 124, 58, 97, 61, 45, 46}", "ArbLen": 5})
+    r, states = W.tlc_states(ctx, "SignedValue", W.cfg_with(ctx, "Gen_SignedValue.cfg", subs), count=True,
+                             label="Gen_SignedValue.cfg", timeout=ctx.pick(900, 1500), coverage=True,
+                             required_actions=["Scenario", "ArbPut"])
     _CREATES.clear()
     scen = []
     for st in states:
@@ -75,13 +78,13 @@ def run(ctx):
     ctx._phase("replay", t0)
     ctx.cov["exhaustive"] = True
     # 3. code -> spec: recorded sessions validated by TLC
-    n = ctx.pick(200, 6000)
+    n = ctx.pick(150, 6000)
     jobs = [(i + 1, ctx.seed * 1000003 + i, ctx.pick(14, 24)) for i in range(n)]
     t0 = time.time()
     traces = framework.pool_map(S.random_session, jobs)
     ctx._phase("record", t0)
     t0 = time.time()
-    ctx.validate("websec", "Trace_SignedValue", "Trace_SignedValue.cfg", traces, sig_fn=_trace_sig)
+    ctx.validate("websec", "Trace_SignedValue", "Trace_SignedValue.cfg", traces, sig_fn=_trace_sig, shards=ctx.pick(6, None))
     ctx._phase("validate", t0)
     ctx.cov["rule"] = ("scenario = (create parameters, one tamper operation, decode parameters) or (arbitrary string, "
                        "decode parameters) as enumerated by TLC; distinct = distinct scenario records")
